@@ -43,6 +43,9 @@ static uint64_t steps, switches, last_progress;
 static int burst_thr = -1;
 static uint64_t burst_left;
 static uint64_t hr_calls;
+static int fair_mode, fair_next;
+static uint64_t fair_deadline;
+static uint64_t last_ev_step[RSV_MAXT];
 
 struct rsv_rec *rsv_trace;
 static size_t trace_cap;
@@ -147,6 +150,8 @@ void rsv_rt_init(const struct rsv_sched *c)
 	burst_thr = -1;
 	burst_left = 0;
 	hr_calls = 0;
+	fair_mode = fair_next = 0;
+	memset(last_ev_step, 0, sizeof last_ev_step);
 	atomic_store(&trace_n, 0);
 	atomic_store(&trace_ovf, 0);
 	atomic_store(&ev_seq, 0);
@@ -192,6 +197,19 @@ static int pick(int force_other, int site)
 	}
 	if(!n)
 		hang("deadlock: no runnable thread");
+	if(fair_mode) { /* strict round robin: rules out starvation by the generated schedule before a hang is declared */
+		for(int k = 0; k < nvt; k++) {
+			int c = (fair_next + k) % nvt;
+			if(vts[c].st == ST_RUNNABLE && !(force_other && c == me)) {
+				fair_next = c + 1;
+				return c;
+			}
+		}
+		return cand[0];
+	}
+	/* a burst of a thread that only polls (no trace event for a while) is pointless */
+	if(burst_left && burst_thr == me && me >= 0 && steps - last_ev_step[me] > 200)
+		burst_left = 0;
 	if(burst_left) {
 		if(burst_thr < nvt && vts[burst_thr].st == ST_RUNNABLE && !force_other &&
 		    !(burst_thr == me && site == RSV_SITE_BARRIER_SPIN)) {
@@ -268,8 +286,13 @@ void rsv_yield(int site)
 	}
 	if(++steps > cfg.budget)
 		hang("budget");
-	if(steps - last_progress > cfg.noprogress)
-		hang("noprogress");
+	if(steps - last_progress > cfg.noprogress) {
+		if(!fair_mode) {
+			fair_mode = 1;
+			fair_deadline = steps + cfg.noprogress / 2 + 100000;
+		} else if(steps > fair_deadline)
+			hang("noprogress");
+	}
 	switch_to(pick(0, site));
 }
 
@@ -332,7 +355,7 @@ static int spawn_common(void *(*fn)(void *), void *arg, int rid_hint)
 	nvt = id + 1;
 	pthread_attr_t at;
 	pthread_attr_init(&at);
-	pthread_attr_setstacksize(&at, 1 << 20);
+	/* default stack size: the core's thread-local arrays (2 x 512 KiB) live in the thread's stack mapping */
 	int e = pthread_create(&vts[id].pt, &at, tramp, (void *)(intptr_t)id);
 	pthread_attr_destroy(&at);
 	pthread_mutex_unlock(&spawn_lock);
@@ -401,7 +424,6 @@ static inline int kind_has_msg(int kind)
 		case RSV_EV_EXTRACT:
 		case RSV_EV_PROCESS:
 		case RSV_EV_UNPROCESS:
-		case RSV_EV_ANTI_LOCAL:
 		case RSV_EV_ANTI_REMOTE:
 		case RSV_EV_SILENT:
 		case RSV_EV_SEND_LOCAL:
@@ -425,8 +447,12 @@ void rsv_ev(int kind, const void *p, uint64_t a, uint64_t b, double t)
 {
 	if(kind == RSV_EV_STAGE && me >= 0)
 		vts[me].last_stage = (int)a;
-	if(kind != RSV_EV_STAGE && kind != RSV_EV_MSG_ALLOC && kind != RSV_EV_MSG_FREE)
+	if(kind != RSV_EV_MSG_ALLOC && kind != RSV_EV_MSG_FREE) {
 		last_progress = steps;
+		fair_mode = 0;
+		if(me >= 0)
+			last_ev_step[me] = steps;
+	}
 	if(!trace_cap && !rsv_ev_callback)
 		return;
 	struct rsv_rec tmp, *r = &tmp;
